@@ -8,19 +8,29 @@ MODULES = [
     "RotoV.Lemmas.LexerDriver", "RotoV.Lemmas.TypeCycle",
     "RotoV.Model.Lexer", "RotoV.Model.LexerBase", "RotoV.Model.TypeCycle",
 ]
+PROPS_REPORT = "RotoV.Props.C06Report"
+MODULES_REPORT = ["RotoV.Model.ReportBase"]
+PROPS_UNIFY = "RotoV.Props.C06Unify"
+MODULES_UNIFY = ["RotoV.Lemmas.Unify", "RotoV.Model.Unify", "RotoV.Model.UnifyBase"]
 
 
 def search(ctx):
     """A proof obligation or the model/implementation tie broke: hunt for an
     input on which the property fails on the real code (bigger crash-oracle
-    run with another seed; the corpus is replayed first)."""
+    run with another seed; corpus and boundary stream are replayed first) —
+    unless the run itself has already produced one."""
+    known = common.load_known(ctx.pid)
+    if any(common.match_known(known, v) is None for v in ctx.impl_violations):
+        return  # the run itself already produced a concrete failing input
     if ctx.build_harness("c06"):
         ctx.harness("c06", ["run", ctx.seed + 7919, "thorough"], timeout=3000, name="search:c06")
 
 
 def run(ctx):
-    ctx.extract(["lextables"])
+    ctx.extract(["lextables", "unifyfacts", "reportslices"])
     ctx.prove(PROPS, extra_modules=MODULES)
+    ctx.prove(PROPS_REPORT, extra_modules=MODULES_REPORT, extra_targets=())
+    ctx.prove(PROPS_UNIFY, extra_modules=MODULES_UNIFY, extra_targets=())
     if ctx.build_harness("c06"):
         ctx.harness("c06", ["run", ctx.seed, ctx.tier], timeout=3000)
     ctx.trusted += [
